@@ -28,7 +28,8 @@ Proof.
   - unfold data_of. rewrite Ho. destruct (r_data (o_rec ob)) as [d|].
     + destruct (kv_get d k).
       * destruct (inv_hupd_hok _ _ _ _ o (fun r => set_data r (Some (kv_del d k))) I H) as [I1 H1]; [reflexivity|].
-        do 3 eexists. split; [reflexivity|]. split; [assumption|]. split; [assumption | auto with cks].
+        destruct (save_direct_inv _ _ _ _ _ I1 H1) as (s' & E & I' & Hh). rewrite E.
+        do 3 eexists. split; [reflexivity|]. split; [exact I'|]. split; [eapply hok_ids; [apply ids_pres_heap; exact Hh | exact H1] | apply cks_ok_nil].
       * do 3 eexists. split; [reflexivity|]. split; [assumption|]. split; [assumption | auto with cks].
     + do 3 eexists. split; [reflexivity|]. split; [assumption|]. split; [assumption | auto with cks].
   - destruct (login_inv _ _ _ _ _ u ex I H) as (s' & n & E & I' & H' & Hn'). rewrite E.
